@@ -144,6 +144,26 @@ func NewExplorer(prog *ssa.Program, pkg *ssa.Package, fn *ssa.Function, cfg Conf
 	return ex
 }
 
+// forkSites counts, per function, the decisions that really forked (VERIF_FORKS=1: printed by
+// vcheck harness); a profiling aid for harness design, not part of any verdict.
+var (
+	forkSites   = map[string]int{}
+	forkSitesMu sync.Mutex
+	forkProfile = os.Getenv("VERIF_FORKS") != ""
+)
+
+func noteFork(site string) {
+	if !forkProfile {
+		return
+	}
+	forkSitesMu.Lock()
+	forkSites[site]++
+	forkSitesMu.Unlock()
+}
+
+// ForkSites returns the fork profile (empty unless VERIF_FORKS is set).
+func ForkSites() map[string]int { return forkSites }
+
 func (ex *Explorer) push(path []Decision, alt Decision, m Model) {
 	p := make([]Decision, len(path)+1)
 	copy(p, path)
